@@ -225,14 +225,14 @@ def happy_script(r, listing, fresh, restart, direct_login, cached_hit, mlsd_ok=T
     return s
 
 
-def render_script(r, codes, plain):
+def render_script(r, codes, plain, size=None):
     out = []
     for c in codes:
         if c == 227:
             a = '(%d,%d,%d,%d,%d,%d)' % tuple(r.randrange(256) for _ in range(6))
             out.append(b'227 Entering Passive Mode ' + a.encode() + b'.\r\n')
         elif c == 213:
-            out.append(b'213 %d\r\n' % r.randrange(100000))
+            out.append(b'213 %d\r\n' % (r.randrange(100000) if size is None else size))
         else:
             out.append(render_reply(r, c, 0 if plain else r.choice([0, 0, 1])))
     return out
@@ -252,7 +252,12 @@ def gen_visit(r, url, *, listing=None, plain=False, mutate=None, twin=True):
     # is the cache a hit?  decided by the real code; for the script we guess, a wrong guess is just another server behaviour
     cached_hit = (not fresh) and cached == ['anonymous', '-wpull@'] and '@' not in url and not req_user and not req_pass
     codes = happy_script(r, listing, fresh, restart, r.randrange(4) == 0, cached_hit, mlsd_ok=r.randrange(2) == 0)
-    replies = render_script(r, codes, plain)
+    dn = r.choice([0, 1, 5, 5, 40, 40, 200])
+    if r.randrange(60) == 0:
+        dn = 4096 + r.randrange(-1, 600)
+    # most servers announce the true size: SIZE = bytes that will come over the data connection (+ the restart offset they accept)
+    size = dn + (restart or 0) if r.randrange(10) < 6 else None
+    replies = render_script(r, codes, plain, size)
     mutate = r.randrange(3) == 0 if mutate is None else mutate
     if mutate and replies:
         i = r.randrange(len(replies))
@@ -275,11 +280,10 @@ def gen_visit(r, url, *, listing=None, plain=False, mutate=None, twin=True):
         else:
             replies.insert(i, render_reply(r, r.choice(CODES), 0))   # an unexpected extra reply
     ctrl = b''.join(replies)
-    dn = r.choice([0, 1, 5, 5, 40, 40, 200])
-    if r.randrange(60) == 0:
-        dn = 4096 + r.randrange(-1, 600)
     data = bytes(r.randrange(256) for _ in range(dn)) if r.randrange(3) else (b'-rw-r--r-- 1 u g 5 Jan 01 2015 f\r\n' * (dn // 30))
-    return {'kind': 'visit', 'url': url, 'req_user': req_user, 'req_pass': req_pass, 'restart': restart,
+    # a data path that stalls (longer than any grace period a client might apply) after part of the data
+    stall = {'after': r.randrange(0, max(1, len(data))), 'seconds': r.choice([6, 30, 600])} if (len(data) > 1 and r.randrange(8) == 0) else None
+    return {'kind': 'visit', 'url': url, 'req_user': req_user, 'req_pass': req_pass, 'restart': restart, 'stall': stall,
             'listing': listing, 'fresh': fresh, 'cached': cached, 'limit': LIMIT,
             'ctrl': ctrl.hex(), 'ctrl_segs': r.choice(_seglists(r, len(ctrl), 3)),
             'data': data.hex(), 'data_segs': r.choice(_seglists(r, len(data), 3)) if data else [],
